@@ -708,7 +708,31 @@ def r15(ctx):
         raise AnalysisBroken('C19.R15: only %d substr calls with a searched position as length found' % n)
 
 
+def r16(ctx):
+    ctx.rule('C19.R16', 'free text reaches the dump only through the quoting function: AttributedItem::dumpAttribute (units, comments '
+             'and the other attribute columns) inserts no std::string into the output itself - the text goes to dumpString '
+             '(or appendJson for JSON), whose three reasons to quote C19.R3 decides; a shortcut that writes "harmless" text '
+             'directly has to repeat all three and the one seen forgot the two adjacent quotes', minimum=1)
+    fb = ctx.fb
+    fn = fb.fn('ebusd::AttributedItem::dumpAttribute')
+    ctx.touch(fn)
+    outp = '*' + fn.P(3)
+    via = [c for c in fn.all('CallExpr', 'CXXMemberCallExpr') if (fn.nodes[c].get('callee') or '').endswith('AttributedItem::dumpString')]
+    direct = []
+    for x, v in sorted(fn.nodes.items()):
+        if v['k'] == 'CXXOperatorCallExpr' and v.get('op') == '<<' and v.get('args') and len(v['args']) > 1:
+            t = fn.nodes[fn.strip(v['args'][1], casts=True)].get('t') or ''
+            root = v['args'][0]
+            while fn.nodes[fn.strip(root)]['k'] == 'CXXOperatorCallExpr' and fn.nodes[fn.strip(root)].get('op') == '<<':
+                root = fn.nodes[fn.strip(root)]['args'][0]
+            if fn.key(root) == outp and ('basic_string' in t or t.replace('const ', '').strip() in ('std::string', 'string')):
+                direct.append(x)
+    ctx.ob('C19.R16', fn, direct[0] if direct else (via[0] if via else fn.body), bool(via) and not direct, 'attribute text in the dump',
+           'written by dumpString (%d call(s)) and not inserted directly (%d direct insertion(s))' % (len(via), len(direct)))
+
+
 def run(ctx):
+    r16(ctx)
     r15(ctx)
     r14(ctx)
     r13(ctx)
